@@ -11,6 +11,7 @@ package main
 import (
 	"bytes"
 	"fmt"
+	"math"
 	"sort"
 	"strconv"
 	"strings"
@@ -149,6 +150,36 @@ func serve(ch chan request) {
 				k := p.Current()
 				note(k)
 				return "ok " + fmtKey(k, start)
+			case t[0] == "prov.curs" && len(t) == 4:
+				// n calls of Current() at at, at+step, …, at+(n-1)*step (a long history in one op
+				// line): answers the first and the last key, the number of calls whose key
+				// differs from the previous call's, and the smallest id difference over those.
+				n, ok0 := i64(t[1])
+				step, ok1 := i64(t[2])
+				at, ok2 := i64(t[3])
+				if !ok0 || !ok1 || !ok2 || p == nil || n < 1 || n > 1<<20 || step < 0 ||
+					(step > 0 && (n-1) > (math.MaxInt64-at)/step) || !sleepTo(at) {
+					return "bad-op"
+				}
+				first := p.Current()
+				note(first)
+				prev, changes, minStep := first, int64(0), int64(0)
+				for i := int64(1); i < n; i++ {
+					if !sleepTo(at + i*step) {
+						return "bad-op"
+					}
+					k := p.Current()
+					note(k)
+					if k.ID != prev.ID || !k.Validity.NotBefore.Equal(prev.Validity.NotBefore) {
+						d := int64(k.ID) - int64(prev.ID)
+						if changes == 0 || d < minStep {
+							minStep = d
+						}
+						changes++
+					}
+					prev = k
+				}
+				return fmt.Sprintf("ok %d %d %s | %s", changes, minStep, fmtKey(first, start), fmtKey(prev, start))
 			case t[0] == "prov.get" && len(t) == 3:
 				id, ok1 := i64(t[1])
 				at, ok2 := i64(t[2])
@@ -456,6 +487,51 @@ func (h *hist) opGet(id int64) {
 	h.checkGet(h.now, id, kid, nb, na, found)
 }
 
+// opCurs: a run of n Current calls step ns apart in one op line. Oracle on the summary: the
+// first and the last key are checked like any answer of Current; between two calls that
+// returned different keys the id must have grown (ids strictly increase along the whole run, so
+// none repeats); with step > 24 h every call must have handed out a new key. Independently the
+// bubble server remembers the bytes of every id it has ever seen (note) and reports an id whose
+// bytes changed (c12:key-bytes), i.e. an id that came back for another key.
+func (h *hist) opCurs(n, step int64) {
+	t0 := h.now
+	ans := h.do(fmt.Sprintf("prov.curs %d %d %d", n, step, t0))
+	f := strings.Fields(ans)
+	if len(f) != 10 || f[0] != "ok" || f[6] != "|" {
+		h.fail("c12:current-failed", "a run of Current calls failed: "+ans, nil)
+		return
+	}
+	changes, ok1 := i64(f[1])
+	minStep, ok2 := i64(f[2])
+	id1, nb1, na1, fd1, ok3 := parseKey(strings.Join(f[3:6], " "))
+	id2, nb2, na2, fd2, ok4 := parseKey(strings.Join(f[7:10], " "))
+	if !ok1 || !ok2 || !ok3 || !ok4 || !fd1 || !fd2 {
+		h.fail("c12:current-failed", "a run of Current calls failed: "+ans, nil)
+		return
+	}
+	h.c.Count("curs:ops")
+	tn := t0 + (n-1)*step
+	d := map[string]any{"n": n, "step": step, "t0": t0, "changes": changes, "minIdStep": minStep, "first": f[3:6], "last": f[7:10]}
+	h.checkCur(t0, id1, nb1, na1)
+	if changes > 0 && minStep < 1 {
+		h.fail("c12:id-repeated", "in a run of Current calls a new key received an id that is not larger than its predecessor's", d)
+	}
+	if step > renewal && changes != n-1 {
+		h.fail("c12:current-stale", "calls more than 24 h apart returned the same key", d)
+	}
+	if step > renewal && id2-id1 < n-1 {
+		h.fail("c12:id-repeated", "n keys were generated but the ids span fewer than n values", d)
+	}
+	if changes >= 65536 {
+		h.c.Count("curs:over-65536-rotations")
+	}
+	if changes >= 1 {
+		h.c.Count("curs:rotated")
+	}
+	h.now = tn
+	h.checkCur(tn, id2, nb2, na2)
+}
+
 func (h *hist) sortedIDs() []int64 {
 	ids := make([]int64, 0, len(h.keys))
 	for id := range h.keys {
@@ -609,8 +685,12 @@ func history(c *lib.Ctx, n int, r *lib.Rand, nOps int, parMax int) {
 	for i := 0; i < nOps; i++ {
 		h.advance(r)
 		switch x := r.Intn(100); {
-		case x < 45:
+		case x < 42:
 			h.opCur()
+		case x < 45:
+			// a short run: steps around the renewal interval and arbitrary ones
+			step := []int64{renewal, renewal + 1, renewal - 1, r.Range(0, int64(hour)), r.Range(int64(hour), int64(4*day))}[r.Intn(5)]
+			h.opCurs(r.Range(1, 40), step)
 		case x < 80:
 			h.opGet(h.pickKnownID(r))
 		case x < 87:
@@ -619,6 +699,37 @@ func history(c *lib.Ctx, n int, r *lib.Rand, nOps int, parMax int) {
 			h.opPar(r, int(r.Range(2, int64(parMax))))
 		}
 	}
+}
+
+// longHistory: one provider object over ~180-240 years of virtual time with a call of Current
+// in every renewal interval — more than 2^16 rotations (the width of the id field of a cookie),
+// followed by ordinary ops (Gets of the oldest and the newest ids).
+func longHistory(c *lib.Ctx, n int, r *lib.Rand) {
+	c.Comment(fmt.Sprintf("history %d", n))
+	h := &hist{c: c, keys: map[int64]*keyInfo{}}
+	h.now = r.Range(0, int64(time.Second))
+	if ans := h.do(fmt.Sprintf("prov.new %d", h.now)); ans != "ok" {
+		h.fail("c12:new-failed", "NewProvider failed: "+ans, nil)
+		return
+	}
+	h.opCur()
+	h.opGet(1)
+	h.now += r.Range(1, int64(renewal))
+	h.opCurs(65536+r.Range(2, 600), renewal+r.Range(1, int64(4*hour)))
+	for i := 0; i < 12; i++ {
+		h.advance(r)
+		switch r.Intn(4) {
+		case 0:
+			h.opCur()
+		case 1:
+			h.opGet(h.pickKnownID(r))
+		case 2:
+			h.opGet([]int64{1, 2, h.maxID & 0xffff, h.maxID - 65535, h.maxID - 65536}[r.Intn(5)])
+		default:
+			h.opCurs(r.Range(2, 10), renewal+1)
+		}
+	}
+	c.Count("history:long-65536")
 }
 
 // ------------------------------------------------------------------ users of the provider
@@ -942,6 +1053,10 @@ func gen(c *lib.Ctx) {
 		history(c, nh+n, r, c.Scale(600, 3000), 4)
 	}
 	// the users of the provider: key exchanges only, then key exchanges and listeners
+	for n := 0; n < c.Scale(1, 3); n++ {
+		r := c.Rand.Fork(fmt.Sprintf("long%d", n))
+		longHistory(c, 9000+n, r)
+	}
 	base := nh + c.Scale(2, 10)
 	for n := 0; n < c.Scale(60, 600); n++ {
 		r := c.Rand.Fork(fmt.Sprintf("use-ke%d", n))
